@@ -17,7 +17,7 @@ ANCHORS = ['numdifftools.finite_difference:LogRule._vstack', 'numdifftools.limit
 MIN_COUNTERS = dict(quick={'shape_asserted': 1400, 'neighbour_independence_asserted': 1000,
                            'scalar_equivalence_asserted:bitwise': 600, 'scalar_equivalence_asserted:within_estimate': 200,
                            'forwarding_asserted': 1400, 'cases_where_columns_chose_different_rows': 300,
-                           'cases_with_nonfinite_neighbours': 30},
+                           'cases_with_nonfinite_neighbours': 15},
                     thorough={'neighbour_independence_asserted': 30000})
 RULE = ('Replacement neighbours include values outside the domain, at poles and of extreme magnitude (1e13..1e17, 1e-300). ' 
         'shapes with 0..3 axes and <= 40 elements; methods central/forward/backward/complex/multicomplex; n <= 4, order <= 6; '
